@@ -360,6 +360,10 @@ type runner struct {
 func (r *runner) handler(s *kit.Sess, c *kit.Call, w *kit.Writers) kit.Result {
 	if !r.stream.Load() {
 		switch c.Method {
+		case "Login":
+			if strings.HasPrefix(c.Username, "bad") {
+				return kit.Result{Err: &imap.Error{Type: imap.StatusResponseTypeNo, Code: imap.ResponseCodeAuthenticationFailed, Text: "no"}}
+			}
 		case "Append":
 			if n := r.panicAppend.Load(); n > 0 {
 				buf := make([]byte, n)
@@ -628,6 +632,9 @@ dialogue:
 				break dialogue
 			}
 			if p.waitCont {
+				if plus && answered[c.tag] > 0 && p.contKind == "literal" {
+					viol("continuation-request-then-refusal", c.desc, "the server sent a continuation request for a synchronising literal and, before any octet of it was sent, a tagged completion for the same command: it asked for a literal it is not willing to accept")
+				}
 				if answered[c.tag] > 0 {
 					break // refused: the rest of the command is not sent
 				}
@@ -870,6 +877,21 @@ func body(w *hx.W) {
 						emit(d)
 					}
 				}
+			}
+			// long-lived unauthenticated connections: dozens of failed logins whose user names arrive
+			// as synchronising literals (well over 100 KiB of accepted literals on one connection)
+			if rep%2 == 0 {
+				d := &dialogue{caps: cn, class: "notauth/many-literals"}
+				for k := 0; k < 45; k++ {
+					c := command{tag: g.tag()}
+					n := []int{2048, 3000, 4096}[k%3]
+					payload := append([]byte("bad"), g.markerPayload(n-3)...)
+					c.pieces = []piece{{data: []byte(fmt.Sprintf("%s LOGIN {%d}\r\n", c.tag, n)), waitCont: true, contKind: "literal"}, {data: append(append([]byte(nil), payload...), " pw\r\n"...)}}
+					c.desc = "LOGIN with a synchronising literal user name (failing login, long-lived connection)"
+					d.cmds = append(d.cmds, c)
+				}
+				d.cmds = append(d.cmds, plain(g.tag(), "NOOP"))
+				emit(d)
 			}
 			// over-long lines of rejected commands
 			for si, n := range longSizes {
